@@ -45,7 +45,8 @@ def gi(z):
 def exact_det(A):
     A = np.asarray(A)
     M = [[_G(int(round(x.real)), int(round(x.imag))) for x in row] for row in A.astype(complex)]
-    return cdet(M)
+    d = cdet(M)
+    return d if isinstance(d, _G) else _G(int(d))
 
 
 class _G:
